@@ -532,11 +532,15 @@ class SgzReader(object):
                 raise IndexError(self.range_error.format(min_cd_idx, 0, max_cd_len-1))
             if not 0 < max_cd_idx <= max_cd_len:
                 raise IndexError(self.range_error.format(max_cd_idx, 1, max_cd_len))
+            if not min_cd_idx < max_cd_idx:
+                raise IndexError(self.range_error.format(min_cd_idx, 0, max_cd_idx - 1))
             cd_len = max_cd_idx - min_cd_idx
 
         if min_sample_idx is None or max_sample_idx is None:
             cd = np.zeros((cd_len, self.n_samples))
         else:
+            if not 0 <= min_sample_idx < max_sample_idx <= self.n_samples:
+                raise IndexError(self.range_error.format((min_sample_idx, max_sample_idx), 0, self.n_samples))
             cd = np.zeros((cd_len, max_sample_idx - min_sample_idx))
 
         if cd_id >= 0:
@@ -596,11 +600,15 @@ class SgzReader(object):
                 raise IndexError(self.range_error.format(min_ad_idx, 0, max_ad_len-1))
             if not 0 < max_ad_idx <= max_ad_len:
                 raise IndexError(self.range_error.format(max_ad_idx, 1, max_ad_len))
+            if not min_ad_idx < max_ad_idx:
+                raise IndexError(self.range_error.format(min_ad_idx, 0, max_ad_idx - 1))
             ad_len = max_ad_idx - min_ad_idx
 
         if min_sample_idx is None or max_sample_idx is None:
             ad = np.zeros((ad_len, self.n_samples))
         else:
+            if not 0 <= min_sample_idx < max_sample_idx <= self.n_samples:
+                raise IndexError(self.range_error.format((min_sample_idx, max_sample_idx), 0, self.n_samples))
             ad = np.zeros((ad_len, max_sample_idx - min_sample_idx))
 
         if ad_id < self.n_xlines:
@@ -794,6 +802,8 @@ class SgzReader(object):
             A single trace, decompressed
         """
         if self.is_2d:
+            if not 0 <= index < self.tracecount:
+                raise IndexError(self.range_error.format(index, 0, self.tracecount - 1))
             min_trace = self.blockshape[1] * (index // self.blockshape[1])
 
             if self.blockshape[1] == 4:
@@ -803,7 +813,7 @@ class SgzReader(object):
                                            0, self.n_samples, access_padding=True)
 
             trace = chunk[index % self.blockshape[1], 0:self.n_samples]
-            return np.squeeze(trace)
+            return trace
 
         else:
             if (not self.structured) and (not override_unstructured_mapping):
@@ -820,13 +830,15 @@ class SgzReader(object):
             min_xl = self.blockshape[1] * (xl // self.blockshape[1])
             min_sample_id = 0 if min_sample_id is None else min_sample_id
             max_sample_id = self.n_samples if max_sample_id is None else max_sample_id
+            if not 0 <= min_sample_id < max_sample_id <= self.n_samples:
+                raise IndexError(self.range_error.format((min_sample_id, max_sample_id), 0, self.n_samples))
 
             min_z = self.blockshape[2] * (min_sample_id // self.blockshape[2])
             max_z = self.blockshape[2] * ((max_sample_id + self.blockshape[2] - 1) // self.blockshape[2])
 
             chunk = self._read_containing_chunk_cached(min_il, min_xl, min_z, max_z)
             trace = chunk[il % self.blockshape[0], xl % self.blockshape[1], min_sample_id-min_z:max_sample_id-min_z]
-            return np.squeeze(trace)
+            return trace
 
     def _read_containing_chunk(self, ref_il, ref_xl, min_z, max_z):
         assert ref_il % self.blockshape[0] == 0
@@ -943,7 +955,7 @@ class SgzReader(object):
         header : dict
             A single header as a dictionary of headerword-value pairs
         """
-        if self.is_3d and not 0 <= index < self.n_ilines * self.n_xlines:
+        if not 0 <= index < self.tracecount:
             raise IndexError(self.range_error.format(index, 0, self.tracecount))
 
         header = self.segy_traceheader_template.copy()
